@@ -1,11 +1,11 @@
 SPECIFICATION Spec
 CONSTANTS
-  MaxH = 2
+  MaxH = 3
   MaxRestarts = 1
-  FullNode = FALSE
+  FullNode = TRUE
   Cap = 2
   Weaken = "none"
-  Direct = TRUE
+  Direct = FALSE
   Timeouts = FALSE
 INVARIANT ContainerOK
 INVARIANT TopIsHeight
